@@ -379,13 +379,13 @@ theorem readLoop_nothing (f : Nat) (r r' : PState) (z : ZoneMap) (h : lineStep r
 /-- reading a file of record lines from a state that knows the origin -/
 theorem readLoop_lines (ls : List GLine) (r : PState) (zo : Name) (fuel : Nat) (hf : ls.length < fuel)
     (hco : r.currentOrigin = some zo) (hzo : r.zoneOrigin = some zo)
-    (htok : r.tok = after 0 false (glinesText ls)) (d : Option Nat)
+    (htok : r.tok = after 0 false (glinesText ls)) (hsv : r.saved = []) (d : Option Nat)
     (hd : ∀ d', d = some d' → r.defaultTTLKnown = true ∧ r.defaultTTL = d')
     (hok : LinesOK zo zo r.relativize r.gfix r.lastName d ls) (z' : ZoneMap)
     (hadd : addAll r.effOrigin [] (ls.map GLine.entry) = .ok z') :
     ∃ rf, readLoop fuel r [] = .ok (rf, z') ∧ rf.zoneOrigin = some zo := by
   refine ⟨finalStateG ls r, ?_, ?_⟩
-  · rw [readLoop_eq_interp, parseTrace_G ls r zo zo fuel hf hco hzo htok d hd hok, interp_traceOfG, hadd]
+  · rw [readLoop_eq_interp, parseTrace_G ls r zo zo fuel hf hco hzo htok hsv d hd hok, interp_traceOfG, hadd]
     rfl
   · rw [finalStateG_zoneOrigin, hzo]
 
@@ -393,9 +393,8 @@ theorem zoneFromText_of_read (text : List Nat) (origin? : Option Name) (rel gfix
     (zo : Name) (h : readLoop (text.length + 2) (PState.init text origin? rel gfix) [] = .ok (rf, zk))
     (hz : rf.zoneOrigin = some zo) (ho : origin? = some zo ∨ zk ≠ []) :
     zoneFromText text origin? rel false gfix = .ok (zk, some zo) := by
-  unfold zoneFromText PState.read
-  have e : (PState.init text origin? rel gfix).tok.input.length + 2 = text.length + 2 := rfl
-  simp only [bind, Except.bind, e, h, Bool.false_eq_true, if_false, pure, Except.pure]
+  rw [zoneFromText_def]
+  simp only [bind, Except.bind, h, Bool.false_eq_true, if_false, pure, Except.pure]
   rcases ho with ho | ho
   · subst ho; simp [hz]
   · cases zk with
@@ -457,7 +456,7 @@ theorem read_write_lossless_core (st' : Style) (w : ZoneMap) (zo : Name) (rel gf
       have hh : (headerLines st' zo).flatMap (· ++ [10]) = [] := by simp [headerLines, hwo, hdt]
       rw [hh, List.nil_append]
       obtain ⟨rf, h1, h2⟩ := readLoop_lines ls (PState.init (glinesText ls) (some zo) rel gfix) zo
-        ((glinesText ls).length + 2) (by omega) rfl rfl rfl none (by intro d' h; cases h)
+        ((glinesText ls).length + 2) (by omega) rfl rfl rfl rfl none (by intro d' h; cases h)
         (by rw [← hdt]; exact hok _) (keptZone st' w) (by rw [heff _ rfl rfl]; exact hadd)
       exact zoneFromText_of_read _ _ rel gfix rf _ zo h1 h2 hres
     | some v =>
@@ -470,7 +469,7 @@ theorem read_write_lossless_core (st' : Style) (w : ZoneMap) (zo : Name) (rel gf
         { PState.init (s2l "$TTL " ++ (natToDec v ++ [10]) ++ glinesText ls) (some zo) rel gfix with
           tok := after 0 false (glinesText ls), defaultTTL := v, defaultTTLKnown := true } zo
         ((s2l "$TTL " ++ (natToDec v ++ [10]) ++ glinesText ls).length + 1)
-        (by simp only [List.length_append]; omega) rfl rfl rfl (some v)
+        (by simp only [List.length_append]; omega) rfl rfl rfl rfl (some v)
         (by intro d' h; cases h; exact ⟨rfl, rfl⟩)
         (by rw [← hdt]; exact hok _) (keptZone st' w) (by rw [heff _ rfl rfl]; exact hadd)
       apply zoneFromText_of_read _ _ rel gfix rf _ zo _ h2 hres
@@ -491,7 +490,7 @@ theorem read_write_lossless_core (st' : Style) (w : ZoneMap) (zo : Name) (rel gf
         { PState.init (s2l "$ORIGIN " ++ (toText zo ++ [10]) ++ glinesText ls) origin? rel gfix with
           tok := after 0 false (glinesText ls), currentOrigin := some zo, zoneOrigin := originAfter origin? zo } zo
         ((s2l "$ORIGIN " ++ (toText zo ++ [10]) ++ glinesText ls).length + 1)
-        (by simp only [List.length_append]; omega) rfl hzo' rfl none (by intro d' h; cases h)
+        (by simp only [List.length_append]; omega) rfl hzo' rfl rfl none (by intro d' h; cases h)
         (by rw [← hdt]; exact hok _) (keptZone st' w) (by rw [heff _ rfl hzo']; exact hadd)
       apply zoneFromText_of_read _ _ rel gfix rf _ zo _ h2 hres
       rw [readLoop_nothing _ _ _ _ hstep]
@@ -515,7 +514,7 @@ theorem read_write_lossless_core (st' : Style) (w : ZoneMap) (zo : Name) (rel gf
           tok := after 0 false (glinesText ls), currentOrigin := some zo, zoneOrigin := originAfter origin? zo,
           defaultTTL := v, defaultTTLKnown := true } zo
         ((s2l "$ORIGIN " ++ (toText zo ++ [10]) ++ (s2l "$TTL " ++ (natToDec v ++ [10])) ++ glinesText ls).length)
-        (by simp only [List.length_append, s2l]; simp; omega) rfl hzo' rfl (some v)
+        (by simp only [List.length_append, s2l]; simp; omega) rfl hzo' rfl rfl (some v)
         (by intro d' h; cases h; exact ⟨rfl, rfl⟩)
         (by rw [← hdt]; exact hok _) (keptZone st' w) (by rw [heff _ rfl hzo']; exact hadd)
       apply zoneFromText_of_read _ _ rel gfix rf _ zo _ h2 hres
